@@ -197,6 +197,17 @@ prop(
     explanation="",
 )
 
+prop(
+    "C14",
+    contract_modules=["contracts.c14"],
+    bcc="c14",
+    level="other",
+    claimed=False,
+    trusted=["vectorize_sse.h:fvec4", "libm.axioms", "C.int"],
+    assumptions=["NaN (empty slot) is a distinguished token value with IEEE comparison semantics; arithmetic on NaN is not modelled (the kernel does none)"],
+    explanation="",
+)
+
 # ---- stubs (filled in as the contracts are written) -------------------------------------------
 _BOUNDED_TEXT = ("Bounded contract check only at this commit: the property's contracts are evaluated at run time on the real code over the "
                  "enumerated input space stated in evidence (coverage.bounded); labelled bounded, nothing is counted as proved. "
